@@ -164,6 +164,22 @@ func convertToFloat(other Object) (Float, bool) {
 	return 0, false
 }
 
+// Convert the other operand of an arithmetic operator to a Float
+//
+// As convertToFloat, but an int too large for a float is an
+// OverflowError, not an operand of the wrong type
+func floatOperand(other Object) (Float, bool, error) {
+	if b, ok := other.(*BigInt); ok {
+		x, err := b.Float()
+		if err != nil {
+			return 0, false, err
+		}
+		return x, true, nil
+	}
+	x, ok := convertToFloat(other)
+	return x, ok, nil
+}
+
 func (a Float) M__neg__() (Object, error) {
 	return -a, nil
 }
@@ -177,7 +193,11 @@ func (a Float) M__abs__() (Object, error) {
 }
 
 func (a Float) M__add__(other Object) (Object, error) {
-	if b, ok := convertToFloat(other); ok {
+	b, ok, err := floatOperand(other)
+	if err != nil {
+		return nil, err
+	}
+	if ok {
 		return Float(a + b), nil
 	}
 	return NotImplemented, nil
@@ -192,14 +212,22 @@ func (a Float) M__iadd__(other Object) (Object, error) {
 }
 
 func (a Float) M__sub__(other Object) (Object, error) {
-	if b, ok := convertToFloat(other); ok {
+	b, ok, err := floatOperand(other)
+	if err != nil {
+		return nil, err
+	}
+	if ok {
 		return Float(a - b), nil
 	}
 	return NotImplemented, nil
 }
 
 func (a Float) M__rsub__(other Object) (Object, error) {
-	if b, ok := convertToFloat(other); ok {
+	b, ok, err := floatOperand(other)
+	if err != nil {
+		return nil, err
+	}
+	if ok {
 		return Float(b - a), nil
 	}
 	return NotImplemented, nil
@@ -210,7 +238,11 @@ func (a Float) M__isub__(other Object) (Object, error) {
 }
 
 func (a Float) M__mul__(other Object) (Object, error) {
-	if b, ok := convertToFloat(other); ok {
+	b, ok, err := floatOperand(other)
+	if err != nil {
+		return nil, err
+	}
+	if ok {
 		return Float(a * b), nil
 	}
 	return NotImplemented, nil
@@ -225,7 +257,11 @@ func (a Float) M__imul__(other Object) (Object, error) {
 }
 
 func (a Float) M__truediv__(other Object) (Object, error) {
-	if b, ok := convertToFloat(other); ok {
+	b, ok, err := floatOperand(other)
+	if err != nil {
+		return nil, err
+	}
+	if ok {
 		if b == 0 {
 			return nil, floatDivisionByZero()
 		}
@@ -235,7 +271,11 @@ func (a Float) M__truediv__(other Object) (Object, error) {
 }
 
 func (a Float) M__rtruediv__(other Object) (Object, error) {
-	if b, ok := convertToFloat(other); ok {
+	b, ok, err := floatOperand(other)
+	if err != nil {
+		return nil, err
+	}
+	if ok {
 		if a == 0 {
 			return nil, floatDivisionByZero()
 		}
@@ -249,7 +289,11 @@ func (a Float) M__itruediv__(other Object) (Object, error) {
 }
 
 func (a Float) M__floordiv__(other Object) (Object, error) {
-	if b, ok := convertToFloat(other); ok {
+	b, ok, err := floatOperand(other)
+	if err != nil {
+		return nil, err
+	}
+	if ok {
 		q, _, err := floatDivMod(a, b)
 		if err != nil {
 			return nil, err
@@ -260,7 +304,11 @@ func (a Float) M__floordiv__(other Object) (Object, error) {
 }
 
 func (a Float) M__rfloordiv__(other Object) (Object, error) {
-	if b, ok := convertToFloat(other); ok {
+	b, ok, err := floatOperand(other)
+	if err != nil {
+		return nil, err
+	}
+	if ok {
 		q, _, err := floatDivMod(b, a)
 		if err != nil {
 			return nil, err
@@ -310,7 +358,11 @@ func floatDivMod(a, b Float) (Float, Float, error) {
 }
 
 func (a Float) M__mod__(other Object) (Object, error) {
-	if b, ok := convertToFloat(other); ok {
+	b, ok, err := floatOperand(other)
+	if err != nil {
+		return nil, err
+	}
+	if ok {
 		_, r, err := floatDivMod(a, b)
 		return r, err
 	}
@@ -318,7 +370,11 @@ func (a Float) M__mod__(other Object) (Object, error) {
 }
 
 func (a Float) M__rmod__(other Object) (Object, error) {
-	if b, ok := convertToFloat(other); ok {
+	b, ok, err := floatOperand(other)
+	if err != nil {
+		return nil, err
+	}
+	if ok {
 		_, r, err := floatDivMod(b, a)
 		return r, err
 	}
@@ -330,14 +386,22 @@ func (a Float) M__imod__(other Object) (Object, error) {
 }
 
 func (a Float) M__divmod__(other Object) (Object, Object, error) {
-	if b, ok := convertToFloat(other); ok {
+	b, ok, err := floatOperand(other)
+	if err != nil {
+		return nil, nil, err
+	}
+	if ok {
 		return floatDivMod(a, b)
 	}
 	return NotImplemented, None, nil
 }
 
 func (a Float) M__rdivmod__(other Object) (Object, Object, error) {
-	if b, ok := convertToFloat(other); ok {
+	b, ok, err := floatOperand(other)
+	if err != nil {
+		return nil, nil, err
+	}
+	if ok {
 		return floatDivMod(b, a)
 	}
 	return NotImplemented, None, nil
@@ -347,14 +411,22 @@ func (a Float) M__pow__(other, modulus Object) (Object, error) {
 	if modulus != None {
 		return NotImplemented, nil
 	}
-	if b, ok := convertToFloat(other); ok {
+	b, ok, err := floatOperand(other)
+	if err != nil {
+		return nil, err
+	}
+	if ok {
 		return floatPow(a, b)
 	}
 	return NotImplemented, nil
 }
 
 func (a Float) M__rpow__(other Object) (Object, error) {
-	if b, ok := convertToFloat(other); ok {
+	b, ok, err := floatOperand(other)
+	if err != nil {
+		return nil, err
+	}
+	if ok {
 		return floatPow(b, a)
 	}
 	return NotImplemented, nil
